@@ -12,6 +12,7 @@ var Registry = map[string]func(tier string){
 	"C03": C03,
 	"C04": C04,
 	"C05": C05,
+	"C06": C06,
 	"C10": C10,
 	"C12": C12,
 	"C13": C13,
